@@ -49,6 +49,15 @@ fn judge_impl(case: &Case, strict: bool) -> Outcome {
         }
     }
     let k = (rules.len() - 1) / 2;
+    // the quantified rule is also evaluated after optimisation (default switches, rewrite only,
+    // shake only): counting must survive it. Compared on truth at top level only.
+    let mut optimised = vec![];
+    for bits in [15u8, 4, 2] {
+        match engine::optimise(&rules[0], engine::Switches::from_bits(bits)) {
+            Ok(o) => optimised.push((bits, o)),
+            Err(p) => return Outcome::Violation(format!("optimise panicked: {p}")),
+        }
+    }
     // K3 signature, recomputed from the rule text
     let k3 = is_k3(&case.rules[0]);
     let mut evals = 0;
@@ -101,6 +110,21 @@ fn judge_impl(case: &Case, strict: bool) -> Outcome {
             partial = true;
         }
         if let Some(e) = expected {
+            for (bits, o) in &optimised {
+                match engine::matches(o, doc) {
+                    Ok(v) if v == e => {}
+                    Ok(v) => {
+                        return Outcome::Violation(format!(
+                            "doc #{di} {}: {quant}(n={n}) over {k} members gives {v} after optimise({}), but the members on their own give [{}] => expected {e}",
+                            doc.show(),
+                            engine::Switches::from_bits(*bits).show(),
+                            tris.iter().map(|x| x.show()).collect::<Vec<_>>().join(","),
+                        ))
+                    }
+                    Err(p) => return Outcome::Violation(format!("matches panicked: {p}")),
+                }
+                evals += 1;
+            }
             if e {
                 saw_true = true
             } else {
@@ -307,7 +331,7 @@ fn members() -> BoxedStrategy<Vec<ValSpec>> {
         })
     });
     let regexes = (
-        prop::collection::vec(prop::sample::select(vec!["?a", "?^a", "?b$", "?a.b", "?[ab]+c", "?^ab$", "?A", "?B$", "?^[ab]"]), 1..=4),
+        prop::collection::vec(prop::sample::select(vec!["?a", "?^a", "?b$", "?a.b", "?[ab]+c", "?^ab$", "?A", "?B$", "?^[ab]", "?ab", "?.*ab", "?ab.*", "?.*ab.*", "?.*a", "?^.*ab"]), 1..=4),
         0u8..3,
         any::<u8>(),
     )
@@ -394,7 +418,7 @@ fn big_list_cases(tier: &str) -> Vec<Case> {
     let lens: &[usize] = if tier == "thorough" { &[62, 63, 64, 65, 66, 80, 130] } else { &[63, 64, 65, 70] };
     let mut out = vec![];
     for &len in lens {
-        for flavour in 0..3u8 {
+        for flavour in 0..4u8 {
             let needle = |i: usize| format!("n{:03}x", i);
             let members: Vec<ValSpec> = (0..len)
                 .map(|i| {
@@ -402,6 +426,10 @@ fn big_list_cases(tier: &str) -> Vec<Case> {
                     ValSpec::Str(match (flavour, i % 3) {
                         (0, _) => format!("*{n}*"),
                         (1, _) => format!("i*{n}*"),
+                        // exact members next to substring members
+                        (3, 0) => n.clone(),
+                        (3, 1) => format!("{n}*"),
+                        (3, _) => format!("*{n}*"),
                         (_, 0) => format!("*{n}*"),
                         (_, 1) => format!("{n}*"),
                         _ => format!("*{n}"),
@@ -447,6 +475,9 @@ fn big_list_cases(tier: &str) -> Vec<Case> {
                     crate::model::DObj(vec![("h".to_string(), crate::model::DocVal::Str(text))])
                 })
                 .chain(std::iter::once(crate::model::DObj::default()))
+                .chain([needle(0), format!("{}z", needle(0)), format!("z{}", needle(0)), needle(3), format!("{}{}", needle(3), needle(6))].into_iter().map(
+                    |t| crate::model::DObj(vec![("h".to_string(), crate::model::DocVal::Str(t))]),
+                ))
                 .collect();
             for (quant, n) in [(1u8, 0u64), (2, 1), (2, 2), (2, 3), (2, 63), (2, 64), (2, len as u64), (2, 0), (0, 0)] {
                 let q = QCase { quant, n, members: members.clone(), form: 0, recipes: vec![] };
